@@ -192,8 +192,10 @@ def run(scn, keep_log=False):
         nconn = scn.get('conns', 1)
         t0 = k.now
         k.run(until=lambda: k.now >= t0 + 1e-3)   # let listeners come up (asyncio serve_forever)
+        open_at = scn.get('open_at') or {}
         for cid in range(nconn):
-            fe.open(cid)
+            if str(cid) not in open_at:
+                fe.open(cid)
         t0 = k.now
         k.run(until=lambda: k.now >= t0 + 1e-3)
         t = k.now
@@ -205,6 +207,8 @@ def run(scn, keep_log=False):
                 inputs[cid].append((k.seq, data))
                 fe.deliver(cid, data)
             return ev
+        for cid_s, when in sorted(open_at.items()):
+            k.call_at(t + float(when), (lambda cid=int(cid_s): fe.open(cid)), 'open:c%s' % cid_s)
         for d in scn['deliveries']:
             t += float(d.get('gap', 0.0))
             data = bytes.fromhex(d['hex'])
